@@ -41,6 +41,14 @@ CLAIMS.update({
         ref="3/C10"),
 })
 
+CLAIMS.update({
+    "C08": dict(
+        text="Static: on every abstract path of every handler/public method the release idiom (is_used_id guard on an unchanged manager -> release_id -> NotifyPacketIdReleased of the same id; no announcement without release) holds; matched acknowledgements, refusals and close release through it; the id-management API is shown panic-free for every id value by path-sensitive exploration with the manager and allocator inlined; only GenericConnection calls the manager. Not decided: the allocator's set semantics (uniqueness / all ids usable) - that is C20.",
+        note=TB + "Per-step obligations of the conservation invariant; whole-history conservation follows only together with the allocator semantics, which is not decided.",
+        technique="MIR abstract interpretation: pairing/guard idiom on all paths + panic reachability with inlined allocator",
+        ref="3/C08"),
+})
+
 NOT_APPLICABLE = {
     "C20": "Refinement of a set model over all operation sequences plus the sorted/disjoint/merged representation invariant of a BTreeSet<ValueInterval> with a non-standard Ord: needs an inductive data-structure invariant no static abstract domain in reach expresses; a syntactic proxy would fire on behaviour-preserving rewrites. The out-of-range query clause is decided under C08-R5.",
 }
